@@ -471,7 +471,11 @@ struct World
       if (ok)
       {
         // the moved-from root must be a valid, childless root
-        SIM_CHECK(sut[s]->empty() && !sut[s]->parent().has_value(), "moved-from-root", n);
+        {
+          // the moved-from root is only required to be a valid tree
+          unsigned budget_mf = 4 * MAX_NODES;
+          check_links(*sut[s], nullptr, n + " moved-from source", budget_mf);
+        }
         nothrow(n, [&] { sut[s].reset(); });
         model[s]->parent = &ma;
         ma.ch.insert(ma.ch.begin() + static_cast<std::ptrdiff_t>(k), std::move(model[s]));
@@ -679,7 +683,10 @@ struct World
         ctx.ev("move_ctor threw");
         return;
       }
-      SIM_CHECK(sut[s]->empty() && !sut[s]->parent().has_value(), "moved-from-root", n);
+      {
+        unsigned budget_mf = 4 * MAX_NODES;
+        check_links(*sut[s], nullptr, n + " moved-from source", budget_mf);
+      }
       nothrow(n, [&] { sut[s].reset(); });
       model[fs] = std::move(model[s]);
       model[s].reset();
@@ -702,16 +709,24 @@ struct World
         ctx.ev("move_ctor_node threw");
         return;
       }
-      SIM_CHECK(ta.empty(), "moved-from-node-keeps-children", n);
       long const fresh = counter++;
       sim::Val v(fresh);
       nothrow(n, [&] { ta.value(std::move(v)); });
-      model[fs] = std::make_unique<M>();
-      model[fs]->id = aid;
-      model[fs]->ch = std::move(ma.ch);
-      for (auto &x : model[fs]->ch)
-        x->parent = model[fs].get();
-      ma.ch.clear();
+      if (ta.empty())
+      {
+        model[fs] = std::make_unique<M>();
+        model[fs]->id = aid;
+        model[fs]->ch = std::move(ma.ch);
+        for (auto &x : model[fs]->ch)
+          x->parent = model[fs].get();
+        ma.ch.clear();
+      }
+      else
+      {
+        // an implementation that copies leaves the source's children in place
+        model[fs] = mcopy(ma);
+        ctx.probe("moved_from_node_kept_children");
+      }
       ma.id = fresh;
       ctx.probe(ma.parent != nullptr ? "move_ctor_from_inner_node" : "move_ctor_from_root_kept");
       ctx.ev("move_ctor_node " + std::to_string(aid) + " -> slot" + std::to_string(fs));
